@@ -30,6 +30,7 @@ def quick_configs(rng):
                  defines=["1" * 14, "0" * 14, "10100100100111", "01011011011000", "1" * 14, "0" * 14]),
         G.Config(3, L=3, cap=4, head=True, manual=True, payload="d12", ctx="ref", inj=[1, 0, 2, 1],
                  defines=["11110111101111", "1" * 14, "1" * 14, "1" * 14]),
+        G.Config(2, L=2, cap=6, head=False, payload="none", ctx="ref"),          # task capacity above the state count
         G.Config(7, L=8, cap=2, head=True, payload="u8", ctx="value",
                  defines=[defines_row(random.Random(7 + k), "mix") for k in range(7)] + ["1" * 14]),
     ]
@@ -216,8 +217,11 @@ def pingpong_case(rng, cfg, name):
         for occ in range(cfg.L + 2):
             for idx, s in enumerate(cyc):
                 nxt = cyc[(idx + 1) % len(cyc)]
-                which = rng.choice(["entryGuard", "exitGuard"])
-                beh.append("beh i0 op%d occ%d %s s%d S : changeTo %d%s" % (k, occ, which, s, nxt, " ; cancel" if rng.random() < 0.25 else ""))
+                # the destination's entry guard always redirects on (the chain never breaks); sometimes the active
+                # state's exit guard redirects too (then the entry guard's redirect overwrites it)
+                beh.append("beh i0 op%d occ%d entryGuard s%d S : changeTo %d%s" % (k, occ, s, nxt, " ; cancel" if rng.random() < 0.25 else ""))
+                if rng.random() < 0.2:
+                    beh.append("beh i0 op%d occ%d exitGuard s%d S : changeTo %d" % (k, occ, s, nxt))
         if src == "react":
             beh.append("beh i0 op%d occ0 react s%d S : changeTo %d" % (k, rng.randrange(cfg.n), cyc[0]))
     return lines + beh + ["op " + o for o in ops]
@@ -227,7 +231,8 @@ def pingpong_case(rng, cfg, name):
 def build(cfg, sanitize=False, cxx="g++"):
     flags = ["-std=c++11", "-O1", "-Wall", "-Wextra", "-ftemplate-depth=2000"]
     if sanitize:
-        flags += ["-g", "-fsanitize=address,undefined", "-fno-sanitize-recover=all"]
+        # -O0: g++'s UBSan instruments more at -O0 (e.g. reference binding to a misaligned packed member, F8)
+        flags = [f for f in flags if f != "-O1"] + ["-O0", "-g", "-fsanitize=address,undefined", "-fno-sanitize-recover=all"]
     return C.build_harness("machine" + ("_san" if sanitize else ""), G.source(cfg), flags, cxx=cxx)
 
 
@@ -242,8 +247,15 @@ def split_cases(out):
 
 
 def run_cases(exe, case_lines_list, timeout=900):
+    import subprocess
     lines = [l for c in case_lines_list for l in c]
-    rc_i, out_i = C.run_lines([exe], lines, timeout=timeout)
+    try:
+        rc_i, out_i = C.run_lines([exe], lines, timeout=timeout)
+    except subprocess.TimeoutExpired as e:
+        # the implementation did not return: report what it printed so far with a distinctive status
+        partial = (e.stdout or b"")
+        partial = partial.decode("utf-8", "replace") if isinstance(partial, bytes) else partial
+        rc_i, out_i = -999, partial.split("\n")
     rc_m, out_m = C.run_lines([C.DRIVER, "machine"], lines, timeout=timeout)
     return rc_i, split_cases(out_i), rc_m, split_cases(out_m)
 
@@ -471,3 +483,43 @@ def oracle_replica(impl_lines):
                 if "i0" in act and act["i0"] != f["act"] and not (w[3] == "replayTransition" and f["ret"] == "0" and False):
                     return "after %s the replica is in state %s, the authority in %s" % (w[2] + " " + w[3], f["act"], act["i0"])
     return None
+
+
+def plan_veto_case(rng, cfg, name):
+    """C08/C09: a state stays active because its transitions are vetoed, while tasks of that origin are
+    appended, reported on, fired, re-appended; cycles with and without fresh reports."""
+    lines = ["case %s" % name, cfg.cfg_line()]
+    x = rng.randrange(cfg.n)
+    ops = ["construct 0 %d %d" % (rng.randrange(2), rng.choice([0, 255]))] + (["enter 0"] if cfg.manual else [])
+    ops.append("immediateChangeTo 0 %d" % x)
+    first_scripted = len(ops)
+    for _ in range(rng.randint(3, 9)):
+        for _ in range(rng.randint(0, 3)):
+            o = x if rng.random() < 0.75 else rng.randrange(cfg.n)
+            d = rng.randrange(cfg.n)
+            if cfg.payload != "none" and rng.random() < 0.4:
+                ops.append("planAppend 0 %d %d %d" % (o, d, rng.randrange(200)))
+            else:
+                ops.append("planAppend 0 %d %d" % (o, d))
+        r = rng.random()
+        if r < 0.55: ops.append("succeed 0 %d" % x)
+        elif r < 0.65: ops.append("fail 0 %d" % x)
+        elif r < 0.72: ops.append("succeed 0 %d" % rng.randrange(cfg.n))
+        if rng.random() < 0.08: ops.append("planRemove 0 %s" % "".join(rng.choice("01") for _ in range(3)))
+        ops.append("update 0" if rng.random() < 0.8 else "react 0")
+    beh = []
+    p_veto = rng.choice([0.5, 0.8, 1.0])
+    for k in range(first_scripted, len(ops)):
+        if not ops[k].startswith(("update", "react")):
+            continue
+        for sid in range(cfg.n):
+            for occ in range(cfg.L + 1):
+                if rng.random() < p_veto:
+                    beh.append("beh i0 op%d occ%d %s s%d S : cancel" % (k, occ, rng.choice(["exitGuard", "entryGuard"]), sid))
+        if rng.random() < 0.25:
+            m = rng.choice(PHASES_U if ops[k].startswith("update") else PHASES_R)
+            beh.append("beh i0 op%d occ0 %s s%d S : %s" % (k, m, x, rng.choice(["succeed", "fail", "succeed ; planAppend %d %d" % (x, rng.randrange(cfg.n))])))
+        for m in ("planSucceeded", "planFailed"):
+            if rng.random() < 0.3:
+                beh.append("beh i0 op%d occ0 %s s255 S : %s" % (k, m, rng.choice(["planAppend %d %d" % (x, rng.randrange(cfg.n)), "changeTo %d" % rng.randrange(cfg.n), "succeed %d" % x])))
+    return lines + beh + ["op " + o for o in ops]
